@@ -480,6 +480,27 @@ def implicit_globstar_scenarios(ctx):
                         break
                 if want:
                     ctx.mark_nontrivial(('implicit-globstar', ti, fn))
+                # the matcher side: MATCHBASE's implicit prefix is a `**` whether or not GLOBSTAR is among the flags, and it is
+                # the written `**/` in front of the pattern
+                if fn in ((), ('FOLLOW',), ('DOTGLOB',)):
+                    cands = [c for c in tr.candidates(5) if symlink_positions(tr.root, c)][:40] + tr.candidates(2)[:10]
+                    for pat in ('z', '*', 'm', '?', 'l*'):
+                        base = flags_of(fn) | G.REALPATH
+                        for c in cands:
+                            try:
+                                a = G.globmatch(c, pat, flags=base | G.MATCHBASE, root_dir=tr.root)
+                                b = G.globmatch(c, pat, flags=base | G.MATCHBASE | G.GLOBSTAR, root_dir=tr.root)
+                                w_ = G.globmatch(c, '**/' + pat, flags=base | G.GLOBSTAR, root_dir=tr.root)
+                                cb = G.compile(os.fsencode(pat), flags=base | G.MATCHBASE).match(os.fsencode(c), root_dir=os.fsencode(tr.root))
+                            except Exception as e:  # noqa: BLE001
+                                a, b, w_, cb = f'raised {type(e).__name__}', None, None, None
+                            ctx.evals(4)
+                            ctx.count('implicit_prefix_realpath_checks')
+                            if not (a == b == w_ == cb):
+                                ctx.disagree('MATCHBASE\'s implicit prefix does not apply the symlink rule of a written `**/` when GLOBSTAR is not among the flags',
+                                             {'tree': spec, 'flags': list(fn) + ['REALPATH'], 'pattern': pat, 'candidate': c, 'matchbase': a,
+                                              'matchbase_globstar': b, 'written_prefix': w_, 'matchbase_bytes_compiled': cb})
+                                break
 
 
 def run(ctx):
